@@ -250,6 +250,16 @@ func (g *Gen) oblige(st *State, kind, clauseID, desc, goal string) {
 	name := fmt.Sprintf("%s#%d", site, g.oblCount[site])
 	if clauseID == "" {
 		clauseID = "safety:" + kind
+		if rs := g.rootSpec(); rs != nil && len(rs.AssumeSafe) > 0 {
+			line := g.W.sourceLine(g.curPos)
+			for _, a := range rs.AssumeSafe {
+				if strings.Contains(line, a) {
+					g.trustedUsed["safety of `"+a+"` assumed (assume-safe), not proved"] = true
+					g.assume(st, goal)
+					return
+				}
+			}
+		}
 	}
 	o := &Obligation{Name: name, Clause: fnName + " :: " + clauseID, Kind: kind, Pos: pos, Src: g.W.sourceLine(g.curPos), Desc: desc, Func: fnName,
 		prefix: len(g.lines), pc: st.pc, goal: goal}
